@@ -127,7 +127,7 @@ class C12(Profile):
         cfg = {'m_allow_custom': True, 'fs_allow_custom': True, 'bundlify': rng.random() < 0.15, 'ms_only': with_unreg and not respell_on_dicts,
                'respell_on_dicts': respell_on_dicts, 'mtime_gran': rng.choice([1, 1, 4, 0]), 'early_parse': rng.random() < 0.3}
         n_ids = rng.randrange(2, 9)
-        pool = SW.gen_pool(rng, index, n_ids, rng.choice([1, 2, 3, 4]), kinds)
+        pool = SW.gen_pool(rng, index, n_ids, rng.choice([1, 2, 3, 4]), kinds, upper_ids=rng.choice([0, 0, 0.3, 1.0]))
         for e in pool:
             if e['kind'] == 'unreg':
                 e['digits'] = 3
